@@ -23,6 +23,7 @@ mod schema;
 mod c16;
 mod c04;
 mod c04t;
+mod typed;
 
 fn main() {
     let args: Vec<String> = std::env::args().collect();
@@ -35,7 +36,8 @@ fn main() {
     let mut sink = common::Sink::new();
     match prop {
         "C18" => c18::run(&mut sink, thorough, seed),
-        "C01" | "C02" | "C09" | "C11" | "C14" => c01::run(&mut sink, prop, thorough, seed),
+        "C01" | "C02" | "C11" | "C14" => c01::run(&mut sink, prop, thorough, seed),
+        "C09" => { c01::run(&mut sink, prop, thorough, seed); typed::run_tt3(&mut sink, thorough, seed); }
         "C20" => {
             // number-alphabet strings for Number::from_str + accessors, typed targets, whole documents, verbatim text
             c06::run(&mut sink, thorough, seed);
@@ -51,15 +53,15 @@ fn main() {
             c19::run(&mut sink, thorough, seed);
         }
         "C06" => c06::run(&mut sink, thorough, seed),
-        "C10" => c10::run(&mut sink, thorough, seed),
+        "C10" => { c10::run(&mut sink, thorough, seed); typed::run_pfxs(&mut sink, thorough, seed); }
         "C12" => c12::run(&mut sink, thorough, seed),
-        "C13" => c13::run(&mut sink, thorough, seed),
+        "C13" => { c13::run(&mut sink, thorough, seed); typed::run_rfaults(&mut sink, thorough, seed); }
         "C05" => { c05::run(&mut sink, thorough, seed); c01::run(&mut sink, prop, thorough, seed); }
         "C03" => c03::run(&mut sink, thorough, seed),
         "C17" => c17::run(&mut sink, thorough, seed),
         "C08" => c08::run(&mut sink, thorough, seed),
         "C15" => c15::run(&mut sink, thorough, seed),
-        "C16" => c16::run(&mut sink, thorough, seed),
+        "C16" => { c16::run(&mut sink, thorough, seed); typed::run_tt(&mut sink, thorough, seed); }
         "C04" => c04::run(&mut sink, thorough, seed),
         "replay" => { /* replay lines are `op args…` on stdin */
             let mut s = String::new();
@@ -98,6 +100,7 @@ fn replay(sink: &mut common::Sink, toks: &[&str]) {
         "tov" | "tovagree" => c15::replay(sink, toks),
         "c16" => c16::replay(sink, toks),
         "rtv" | "rtt" => c04::replay(sink, toks),
+        "tt" | "tt3" | "pfxs" | "rfaults" => typed::replay(sink, toks),
         _ => eprintln!("cannot replay op {}", toks[0]),
     }
 }
